@@ -106,13 +106,23 @@ func runC08(p *core.Prog, r *core.Report) {
 	if del == nil {
 		r3.Bad(core.FuncName(bo)+"#rollback", p.Pos(bo.Pos()), "broadcastObject no longer deletes the object from the shards that accepted it")
 	} else {
-		// loop over the whole accepted list
+		// loop over the whole accepted list: the bound of the loop containing the Delete call is len(<the list itself>)
 		whole := false
-		for _, b := range bo.Blocks {
-			for _, in := range b.Instrs {
-				if c, ok := in.(*ssa.Call); ok && core.CalleeName(c) == "builtin.len" && strings.HasSuffix(c.Call.Args[0].Type().String(), "engine.shardWrapper") {
-					if _, isSl := c.Call.Args[0].(*ssa.Slice); !isSl && b.Dominates(del.Block()) {
-						whole = true
+		var hdr *ssa.BasicBlock
+		for _, h := range bo.Blocks {
+			for _, pr := range h.Preds {
+				if h.Dominates(pr) && h.Dominates(del.Block()) && reaches(del.Block(), h) && (hdr == nil || hdr.Dominates(h)) {
+					hdr = h
+				}
+			}
+		}
+		if hdr != nil {
+			if ifi, ok := hdr.Instrs[len(hdr.Instrs)-1].(*ssa.If); ok {
+				if cmp, isB := ifi.Cond.(*ssa.BinOp); isB {
+					if c, isC := cmp.Y.(*ssa.Call); isC && core.CalleeName(c) == "builtin.len" && strings.HasSuffix(c.Call.Args[0].Type().String(), "engine.shardWrapper") {
+						if _, isSl := c.Call.Args[0].(*ssa.Slice); !isSl {
+							whole = true
+						}
 					}
 				}
 			}
